@@ -103,6 +103,14 @@ func TestVerifC01Mount(t *testing.T) {
 	defer out.Close()
 	n := verifutil.EnvInt("VERIF_N", 8)
 	ctx := context.Background()
+	// the ladder is observed through real FUSE mounts; where the kernel refuses, the stream
+	// degrades to a note (never an alarm)
+	if fd, err := os.OpenFile("/dev/fuse", os.O_RDWR, 0); err != nil || os.Geteuid() != 0 {
+		out.Comment(fmt.Sprintf("fuse-unavailable (euid=%d, /dev/fuse: %v): mount-level stream skipped", os.Geteuid(), err))
+		return
+	} else {
+		fd.Close()
+	}
 	// every filesystem root lives under one scratch directory; the blob caches commit
 	// asynchronously, so it is removed (repeatedly) at the very end
 	parent, err := os.MkdirTemp("", "verifc01fs")
@@ -195,6 +203,7 @@ func TestVerifC01Mount(t *testing.T) {
 		out.Emit(sess.NewLine(disable, allow), "ok")
 		shape := []string{"mount", comp, fmt.Sprint(disable), fmt.Sprint(allow)}
 		verifiedBy := "" // the ladder's own account, for the oracle
+		var mounted []string
 		skipped := false
 		for k, ls := range seq {
 			labels := map[string]string{}
@@ -212,14 +221,23 @@ func TestVerifC01Mount(t *testing.T) {
 			if ls.skip {
 				labels[config.TargetSkipVerifyLabel] = "true"
 			}
-			mp := filepath.Join(root, fmt.Sprintf("no-such-dir-%d", k), "mnt")
-			_ = f.Mount(ctx, mp, labels) // always fails at the FUSE server; the ladder's outcome is fs.layer
+			// a real FUSE mount: since /repo 62b0917 a Mount that fails at the FUSE step no longer leaves
+			// its layer registered, so the ladder's outcome is the outcome of Mount itself
+			mp := filepath.Join(root, fmt.Sprintf("mnt-%d", k))
+			if err := os.MkdirAll(mp, 0755); err != nil {
+				t.Fatal(err)
+			}
+			merr := f.Mount(ctx, mp, labels)
 			f.layerMu.Lock()
 			l := f.layer[mp]
 			f.layerMu.Unlock()
 			res := "err"
-			if l != nil {
+			if merr == nil && l != nil {
 				res = "ok"
+				mounted = append(mounted, mp)
+			} else if l != nil {
+				out.Fail("failed-mount-left-registered", fmt.Sprintf("Mount returned %v but the mountpoint stayed registered", merr))
+				l = nil
 			}
 			skipv := "0"
 			if ls.skip {
@@ -285,11 +303,11 @@ func TestVerifC01Mount(t *testing.T) {
 		}
 		out.Distinct(strings.Join(shape, "/"))
 		sess.Close()
-		f.layerMu.Lock()
-		for _, l := range f.layer {
-			l.Close()
+		for _, mp := range mounted {
+			if err := f.Unmount(ctx, mp); err != nil {
+				syscall.Unmount(mp, syscall.MNT_DETACH)
+			}
 		}
-		f.layerMu.Unlock()
 		os.RemoveAll(root)
 	}
 }
